@@ -165,7 +165,49 @@ def hang_exit(res, sc, seed):
     return cb
 
 
+def run_proc_odd(spec, res):
+    """None / falsy / empty examples, exception objects and pairs as examples
+    through the process pools: the same values (type and repr) in the same
+    order - none of them is mistaken for a marker of the machinery."""
+    import os
+    import json
+    import subprocess
+    from ..common import PYTHON, HOME, REPO
+    env = dict(os.environ, PYTHONPATH=f'{REPO}:{HOME}', OMP_NUM_THREADS='1',
+               MKL_NUM_THREADS='1')
+    be = spec['backend']
+    for via in ('prefetch', 'parmap', 'items', 'catch'):
+        if via in ('catch', 'items') and be not in ('mp', 'dill_mp'):
+            # the catching / keyed fetch function is a local closure: only the
+            # dill-based backends can ship it (the others refuse loudly)
+            continue
+        sc = {'backend': be, 'via': via}
+        case = {'odd_values_through': sc}
+        sig = {'entry': via, 'backend': be, 'harness': 'process-pool', 'values': 'odd'}
+        res.case(('proc-odd', be, via), True)
+        try:
+            p = subprocess.run([PYTHON, '-W', 'ignore', '-m', 'vlib.c04_odd_child',
+                                json.dumps(sc)], cwd=str(HOME), env=env,
+                               capture_output=True, text=True, timeout=120)
+        except subprocess.TimeoutExpired:
+            res.violation('iteration-never-completes', case, None, sig=sig)
+            continue
+        line = [l for l in p.stdout.splitlines() if l.startswith('RESULT ')]
+        if not line:
+            res.inconclusive_because(f'odd-values child crashed: {p.stderr[-300:]}')
+            continue
+        r = json.loads(line[0][7:])
+        res.count('process_pool_executions')
+        res.count('process_pool_odd_value_executions')
+        if r['outcome'] != 'exhausted' or r['delivered'] != r['want'] or \
+                r.get('keys', None) not in (None, [f'k{i}' for i in range(len(r['want']))]):
+            res.violation('delivered-sequence-differs', case,
+                          {k: r.get(k) for k in ('outcome', 'error', 'delivered', 'keys')},
+                          sig=sig)
+
+
 def run_proc(spec, res):
+    run_proc_odd(spec, res)
     from .. import procpool as pp
     be = spec['backend']
     rng = rng_for(spec['seed'], PROPERTY, spec['name'])
